@@ -139,11 +139,7 @@ func verifTreeOf(v any, path string, kp []string) *verifNode {
 			i++
 		}
 	case []any:
-		n.kind = vArr
-		if t == nil {
-			n.kind = vNull // a nil slice serialises as null
-			return n
-		}
+		n.kind = vArr // an empty JSON array is parsed into a nil slice; it must be written back as []
 		for i, e := range t {
 			n.kids = append(n.kids, verifTreeOf(e, verifChildPath(path, i), verifKP(kp, "#")))
 		}
